@@ -379,6 +379,24 @@ func (c14) Eval(c *Case) (*Violation, bool) {
 			{"register", main},
 			{"register", "-v", comOr(c.J, "CHF"), "--months", main},
 		}
+		// variants that must fail: the journal does not exist
+		for _, av := range [][]string{
+			{"balance", "--color=false", "--cpuprofile", "/w/p.prof", "/w/none.knut"},
+			{"portfolio", "returns", "-v", comOr(c.J, "CHF"), "--cpuprofile", "/w/p.prof", "/w/none.knut"},
+			{"register", "--cpuprofile", "/w/p.prof", "/w/none.knut"},
+			{"balance", "--color=false", "--months", "-a", "/w/none.knut"},
+			{"check", "/w/none.knut"},
+			{"transcode", "-v", "CHF", "/w/none.knut"},
+			{"portfolio", "weights", "-v", "CHF", "/w/none.knut"},
+		} {
+			o := Run(c.specFor(s, files, av))
+			if v := cleanEnd(o, av[0], av[1:], true, "the journal file does not exist; argv "+strings.Join(av, " ")); v != nil {
+				v.Signature += ":argv-" + strings.Join(av[:len(av)-1], "_")
+				c.Args = av
+				return v, false
+			}
+		}
+		variants = append(variants, []string{"balance", "--color=false", "--cpuprofile", "/w/p.prof", main}, []string{"balance", "--color=false", "--cpuprofile", "/nodir/p.prof", main})
 		for _, av := range variants {
 			o := Run(c.specFor(s, files, av))
 			if v := cleanEnd(o, av[0], av[1:], false, "argv "+strings.Join(av, " ")); v != nil {
